@@ -1,6 +1,6 @@
 CONSTANTS
-MaxEvents = 6
-MaxNow = 5
+MaxEvents = 5
+MaxNow = 4
 MaxVol = 4
 Mutant = 0
 INIT Init
